@@ -1272,6 +1272,9 @@ func (fx *FnCtx) call(v *ssa.Call, c *ssa.CallCommon) {
 				fx.written[cn] = true
 				if s, ok := fx.compSort[cn]; ok {
 					_ = st.getHeap(P, cn, s)
+				} else if t, ok := compTypes[cn]; ok && strings.HasPrefix(cn, "E$") {
+					// an element component this function never touches itself: known by its element type
+					_ = st.getHeap(P, cn, elemSort(P, t))
 				}
 			}
 		}
